@@ -40,7 +40,16 @@ def generate(rng, tier):
             v, t = gm.add_unused(v, t, rng)
         if rng.random() < 0.3:
             v, t, _ = gm.relabel(v, t, rng)
-        cases.append({"family": fam, "v": v, "t": t})
+        if rng.random() < 0.2:
+            sc = rng.choice([1e-6, 1e-3, 1e3])     # micrometre-sized domains etc.
+            v = (np.array(v) * sc).tolist()
+            fam += "_scaled"
+        cases.append({"family": fam, "v": v, "t": t, "tdtype": rng.choice(["int64", "int32"])})
+    # large int32 meshes (implementation + oracles only; too large to evaluate inside Coq)
+    for npts in ([2048, 4096] if tier == "quick" else [1500, 2048, 3000, 4096, 8192]):
+        cases.append({"family": "large_delaunay_int32", "tdtype": "int32",
+                      "gen": {"npts": npts, "seed": rng.randrange(1 << 30), "keep": 0.5, "flip": 0.3,
+                              "scale": rng.choice([1.0, 1e-5])}})
     if tier == "thorough":
         v, t0 = gm.kuhn_box(1, 1, 1)
         t0 = gm.orient_tets(v, t0)
@@ -54,10 +63,40 @@ def generate(rng, tier):
     return cases
 
 
+_CACHE = {}
+
+
+def _mesh(case):
+    """(v, t) of a case; large meshes are stored as generator parameters only."""
+    if "gen" not in case:
+        return case["v"], case["t"]
+    key = core.case_hash(case["gen"])
+    if key not in _CACHE:
+        import random
+        from scipy.spatial import Delaunay
+        g = case["gen"]
+        r = random.Random(g["seed"])
+        pts = np.array([[r.random(), r.random(), r.random()] for _ in range(g["npts"])])
+        d = Delaunay(pts)
+        t = d.simplices
+        vol = np.einsum("ij,ij->i", pts[t[:, 3]] - pts[t[:, 0]], np.cross(pts[t[:, 1]] - pts[t[:, 0]], pts[t[:, 2]] - pts[t[:, 0]]))
+        t = t[np.abs(vol) > 1e-9]
+        vol = vol[np.abs(vol) > 1e-9]
+        t[vol < 0] = t[vol < 0][:, [0, 2, 1, 3]]
+        keep = np.array([r.random() < g["keep"] for _ in range(len(t))])
+        t = t[keep]
+        fl = np.array([r.random() < g["flip"] for _ in range(len(t))])
+        t[fl] = t[fl][:, [0, 2, 1, 3]]
+        _CACHE.clear()
+        _CACHE[key] = ((pts * g.get("scale", 1.0)).tolist(), t.tolist())
+    return _CACHE[key]
+
+
 def run_impl(case):
     from lapy import TetMesh
-    v = np.array(case["v"], dtype=float)
-    t = np.array(case["t"], dtype=int)
+    v_, t_ = _mesh(case)
+    v = np.array(v_, dtype=float)
+    t = np.array(t_, dtype=case.get("tdtype", "int64"))
     out = {}
     try:
         m = TetMesh(v.copy(), t.copy())
@@ -85,7 +124,7 @@ def run_impl(case):
 
 
 def coq_case(case, out):
-    if "error" in out:
+    if "error" in out or "gen" in case:
         return None
     return "(%s, %s, (%s, %s, %s, %s), (%s, %s, %s))" % (
         core.cv3list(case["v"]), core.ctuples(case["t"]),
@@ -107,7 +146,7 @@ def oracle(case, out):
     if "error" in out:
         bad("no_exception", out["error"] + ": " + out.get("error_msg", ""))
         return V
-    v, t = case["v"], case["t"]
+    v, t = _mesh(case)
     vol = _vols(v, t)
     if out["is_oriented"] != bool(np.all(vol > 0)):
         bad("is_oriented_iff_all_positive", f"is_oriented={out['is_oriented']} vols={vol.tolist()}")
@@ -126,7 +165,7 @@ def oracle(case, out):
     for a, b, ch in zip(tn, t, changed):
         if ch and not (sum(1 for x, y in zip(a, b) if x != y) == 2):
             bad("orient_swaps_two_vertices", f"{b}->{a}")
-    if np.all(np.abs(vol) > 1e-12):
+    if np.all(vol != 0):
         if not out["is_oriented_after"]:
             bad("orient_result_is_oriented", "is_oriented false after orient_")
         if not np.all(_vols(v, tn) > 0):
@@ -147,7 +186,7 @@ def oracle(case, out):
             bad("boundary_function_from_owner", f"face {f} owner {owner}")
             break
     # oriented mesh: closed, oriented where manifold, volume
-    if np.all(np.abs(vol) > 1e-12):
+    if np.all(vol != 0):
         if not out["bo_closed"]:
             bad("oriented_boundary_closed", "boundary has an edge in exactly one triangle")
         if out["bo_manifold"] and not out["bo_oriented"]:
@@ -156,12 +195,12 @@ def oracle(case, out):
         f = np.array(out["bo_t"], dtype=int)
         myvol = float(np.sum(np.einsum("ij,ij->i", p[f[:, 0]], np.cross(p[f[:, 1]], p[f[:, 2]]))) / 6.0)
         tot = float(np.sum(np.abs(vol)) / 6.0)
-        if abs(myvol - tot) > 1e-9 * (1 + tot):
+        if abs(myvol - tot) > 1e-9 * tot:
             bad("oriented_boundary_encloses_total_volume", f"surface {myvol} vs tets {tot}")
-        if out["bo_volume"] is not None and out["bo_closed"] and abs(out["bo_volume"] - tot) > 1e-9 * (1 + tot):
+        if out["bo_volume"] is not None and out["bo_closed"] and abs(out["bo_volume"] - tot) > 1e-9 * tot:
             bad("oriented_boundary_volume_method", f"volume() {out['bo_volume']} vs tets {tot}")
     return V
 
 
 def nontrivial(case, out):
-    return "error" not in out and (len(case["t"]) >= 2 or out.get("orient_count", 0) > 0)
+    return "error" not in out and ("gen" in case or len(case["t"]) >= 2 or out.get("orient_count", 0) > 0)
